@@ -26,6 +26,18 @@ def _raise(I, cls, *args):
     raise _interp().PyRaise(PObj(cls, {'args': tuple(args)}))
 
 
+def _havoc_or_unsupported(I, label, msg):
+    """a modelled library function applied to an unknown value: unknown result (havoc mode) or unsupported"""
+    if I.ctx.shared.havoc_unmodelled:
+        return I.any_op(label)
+    raise Unsupported(msg)
+
+
+def _any_arg(args, kw):
+    from .values import AnyVal
+    return any(isinstance(a, AnyVal) for a in list(args) + list(kw.values()))
+
+
 def ekey(a, b):
     """canonical key of the undirected edge {a, b}"""
     return (a, b) if (type(a).__name__, a) <= (type(b).__name__, b) else (b, a)
@@ -359,6 +371,8 @@ class PDefaultDict(PDict):
 # ------------------------------------------------------------------------------------------- module-level functions
 @model(nx.Graph)
 def m_graph(I, args, kw):
+    if _any_arg(args, kw):
+        return _havoc_or_unsupported(I, 'networkx.Graph()', 'networkx.Graph() on an unknown value')
     g = NXGraph()
     if args and args[0] is not None:
         src = args[0]
@@ -375,6 +389,8 @@ def m_defaultdict(I, args, kw):
 
 @model(nx.convert_node_labels_to_integers)
 def m_convert(I, args, kw):
+    if _any_arg(args, kw):
+        return _havoc_or_unsupported(I, 'networkx.convert_node_labels_to_integers()', 'networkx.convert_node_labels_to_integers() on an unknown value')
     G = args[0]
     first = kw.get('first_label', args[1] if len(args) > 1 else 0)
     if not isinstance(G, NXGraph):
@@ -387,6 +403,8 @@ def m_convert(I, args, kw):
 
 @model(nx.relabel_nodes)
 def m_relabel(I, args, kw):
+    if _any_arg(args, kw):
+        return _havoc_or_unsupported(I, 'networkx.relabel_nodes()', 'networkx.relabel_nodes() on an unknown value')
     G, mapping = args[0], args[1]
     copy = kw.get('copy', args[2] if len(args) > 2 else True)
     if not isinstance(mapping, PDict):
@@ -410,6 +428,8 @@ def m_relabel(I, args, kw):
 
 @model(nx.to_dict_of_dicts)
 def m_to_dod(I, args, kw):
+    if _any_arg(args, kw):
+        return _havoc_or_unsupported(I, 'networkx.to_dict_of_dicts()', 'networkx.to_dict_of_dicts() on an unknown value')
     G = args[0]
     nodelist = kw.get('nodelist', args[1] if len(args) > 1 else None)
     nl = list(G.node.e) if nodelist is None else list(I.iterate(nodelist))
@@ -427,6 +447,8 @@ def m_to_dod(I, args, kw):
 
 @model(nx.from_dict_of_dicts)
 def m_from_dod(I, args, kw):
+    if _any_arg(args, kw):
+        return _havoc_or_unsupported(I, 'networkx.from_dict_of_dicts()', 'networkx.from_dict_of_dicts() on an unknown value')
     d = args[0]
     if kw or len(args) > 1:
         raise Unsupported('from_dict_of_dicts options')
@@ -446,6 +468,8 @@ def m_from_dod(I, args, kw):
 
 @model(nx.shortest_path)
 def m_shortest_path(I, args, kw):
+    if _any_arg(args, kw):
+        return _havoc_or_unsupported(I, 'networkx.shortest_path()', 'networkx.shortest_path() on an unknown value')
     G = args[0]
     src = kw.get('source', args[1] if len(args) > 1 else None)
     tgt = kw.get('target', args[2] if len(args) > 2 else None)
@@ -463,6 +487,8 @@ def m_shortest_path(I, args, kw):
 
 @model(nx.all_simple_paths)
 def m_all_simple_paths(I, args, kw):
+    if _any_arg(args, kw):
+        return _havoc_or_unsupported(I, 'networkx.all_simple_paths()', 'networkx.all_simple_paths() on an unknown value')
     G, src, tgt = args[0], args[1], args[2]
     cutoff = kw.get('cutoff', args[3] if len(args) > 3 else None)
     if is_sym(cutoff):
@@ -475,11 +501,15 @@ def m_all_simple_paths(I, args, kw):
 
 @model(nx.cycle_basis)
 def m_cycle_basis(I, args, kw):
+    if _any_arg(args, kw):
+        return _havoc_or_unsupported(I, 'networkx.cycle_basis()', 'networkx.cycle_basis() on an unknown value')
     return PList([PList(c) for c in nx.cycle_basis(args[0].skeleton())])
 
 
 @model(nx.contracted_nodes)
 def m_contracted(I, args, kw):
+    if _any_arg(args, kw):
+        return _havoc_or_unsupported(I, 'networkx.contracted_nodes()', 'networkx.contracted_nodes() on an unknown value')
     G, u, v = args[0], args[1], args[2]
     if kw.get('self_loops', True) is not True or kw.get('copy', True) is not False:
         raise Unsupported('contracted_nodes options')
@@ -556,6 +586,8 @@ class LazySearch:
 
 @model(nxq.search_nodes)
 def m_search_nodes(I, args, kw):
+    if _any_arg(args, kw):
+        return _havoc_or_unsupported(I, 'networkx_query.search_nodes()', 'networkx_query.search_nodes() on an unknown value')
     G, q = args[0], args[1]
     if not isinstance(G, NXGraph):
         raise Unsupported('search_nodes on a non-graph value')
